@@ -48,7 +48,7 @@ def _norm_path(p):
 
 
 class Body:
-    def __init__(self, body, source_locals):
+    def __init__(self, body, source_locals, content_locals=(), any_err=False):
         self.body = body
         self.blocks = body["blocks"]
         self.n = len(self.blocks)
@@ -73,6 +73,9 @@ class Body:
         self.taint = {}
         for l in source_locals:
             self.taint[l] = SLICE
+        for l in content_locals:
+            self.taint[l] = CONTENT         # a by-value input: every bit of it is "content"
+        self.any_err = any_err
         self.links = {}      # local -> set of locals it may point into (via &mut / & of a local)
         self._collect_links()
         self._fixpoint()
@@ -346,7 +349,7 @@ class Body:
                     continue
                 if all(w[0] == "Err" for w in ws):
                     kinds = sorted({w[1] or "?" for w in ws})
-                    if any(k in OVERFLOW_KINDS for k in kinds):
+                    if self.any_err or any(k in OVERFLOW_KINDS for k in kinds):
                         found.append((s, tgt, kinds, term.get("loc")))
                 elif all(w[0] == "None" for w in ws):
                     found.append((s, tgt, ["None"], term.get("loc")))
